@@ -3,6 +3,7 @@
 // triplets, then convert line breaks among the decoded characters), round trip
 // unescape(escape(s)) == s (breaks -> CRLF when normalised), output alphabet, size
 // bounds enforced by guard-page buffers of exactly 3n+1 / 6n+1 / n+1 characters.
+#include <clocale>
 #include "gen.hpp"
 #include "observe.hpp"
 
@@ -29,10 +30,15 @@ static Fields gen(Tape &t) {
   f.seti("nb", t.below(2));
   f.seti("p2s", t.below(2));
   f.seti("bc", t.below(4));
+  // one case in sixteen passes a non-zero value other than URI_TRUE for an escape flag (UriBool is an int); one in sixteen
+  // runs with the process locale switched to C.UTF-8 (the character classes of RFC 3986 do not depend on it)
+  if (t.chance(1, 16)) { static const int odd[] = {2, -1, 256}; f.seti(t.coin() ? "s2p" : "nb", odd[t.below(3)]); }
+  f.seti("locale", t.chance(15, 16) ? 0 : 1);
   return f;
 }
 
-static bool is_unres(unsigned char c) { return isalnum(c) || c == '-' || c == '.' || c == '_' || c == '~'; }
+// written out: the model must not depend on the process locale (the harness switches it, see "locale" below)
+static bool is_unres(unsigned char c) { return (c >= 'a' && c <= 'z') || (c >= 'A' && c <= 'Z') || (c >= '0' && c <= '9') || c == '-' || c == '.' || c == '_' || c == '~'; }
 
 static std::string m_esc(const std::string &s, bool s2p, bool nb) {
   std::string o;
@@ -163,6 +169,38 @@ template <class A> static Verdict check_type(const std::string &text, bool s2p, 
   return Verdict::pass();
 }
 
+// a flag value other than 0 / 1: whichever way it is read, the output must be the model's under one reading, fit 6n+1,
+// be terminated where the returned pointer says, and unescape back to the input (breaks possibly normalised)
+template <class A> static Verdict check_odd(const std::string &text, int s2pRaw, int nbRaw) {
+  using Ch = typename A::Ch;
+  std::basic_string<Ch> in = widen<Ch>(text);
+  size_t n = in.size(), cap = 6 * n + 1;
+  Ch *out = gout().template right_chars<Ch>(cap);
+  for (size_t i = 0; i < cap; i++) out[i] = (Ch)0xAA;
+  Ch *src = gin().template right_chars<Ch>(n);
+  if (n) memcpy(src, in.data(), n * sizeof(Ch));
+  Ch *end = A::EscapeEx(src, src + n, out, (UriBool)s2pRaw, (UriBool)nbRaw);
+  stats().sub_evaluations++;
+  VF_REQUIRE(end != nullptr && end >= out && end < out + cap && *end == 0, "%s: flags (%d,%d): returned pointer is not the terminator inside 6n+1 characters", A::name(), s2pRaw, nbRaw);
+  VF_REQUIRE(narrowable<Ch>(out, end), "%s: escape produced characters above 255", A::name());
+  std::string got = narrow<Ch>(out, end);
+  bool matched = false;
+  for (int a = 0; a < 2 && !matched; a++) for (int b = 0; b < 2 && !matched; b++) {
+    if ((s2pRaw == 0 || s2pRaw == 1) && a != s2pRaw) continue;
+    if ((nbRaw == 0 || nbRaw == 1) && b != nbRaw) continue;
+    if (got != m_esc(text, a != 0, b != 0)) continue;
+    matched = true;
+    Ch *rt = gout().template right_chars<Ch>(got.size() + 1);
+    std::basic_string<Ch> w = widen<Ch>(got);
+    memcpy(rt, w.c_str(), (got.size() + 1) * sizeof(Ch));
+    const Ch *rend = A::UnescapeInPlaceEx(rt, a ? URI_TRUE : URI_FALSE, URI_BR_DONT_TOUCH);
+    std::string back = narrow<Ch>(rt, rend);
+    VF_REQUIRE(back == (b ? breaks_to_crlf(text) : text), "%s: flags (%d,%d): escape/unescape round trip gives '%s'", A::name(), s2pRaw, nbRaw, esc(back).c_str());
+  }
+  VF_REQUIRE(matched, "%s: flags (%d,%d): escape('%s') = '%s' is the escaping under neither reading of the flag", A::name(), s2pRaw, nbRaw, esc(text).c_str(), esc(got).c_str());
+  return Verdict::pass();
+}
+
 static Verdict check_one(const std::string &text, bool s2p, bool nb, bool p2s, int bc) {
   if (text.find('\0') != std::string::npos) return Verdict::discard();
   Verdict v = check_type<Api<char>>(text, s2p, nb, p2s, bc);
@@ -188,7 +226,16 @@ static void classify_text(const std::string &text) {
 
 static Verdict check(const Fields &f) {
   std::string text = f.get("text");
-  Verdict v = check_one(text, f.geti("s2p"), f.geti("nb"), f.geti("p2s"), (int)f.geti("bc"));
+  int s2pRaw = (int)f.geti("s2p"), nbRaw = (int)f.geti("nb");
+  struct Loc { bool on; Loc(bool o) : on(o) { if (on && !setlocale(LC_ALL, "C.UTF-8")) on = false; } ~Loc() { if (on) setlocale(LC_ALL, "C"); } } loc(f.geti("locale") != 0);
+  if (loc.on) stats().hit("locale=C.UTF-8");
+  Verdict v;
+  if ((s2pRaw != 0 && s2pRaw != 1) || (nbRaw != 0 && nbRaw != 1)) {
+    if (text.find('\0') != std::string::npos) return Verdict::discard();
+    stats().relax("non_canonical_boolean_flag:reading_independent_clauses_only");
+    v = check_odd<Api<char>>(text, s2pRaw, nbRaw);
+    if (v.kind == Verdict::PASS) v = check_odd<Api<wchar_t>>(text, s2pRaw, nbRaw);
+  } else v = check_one(text, s2pRaw != 0, nbRaw != 0, f.geti("p2s"), (int)f.geti("bc"));
   if (v.kind != Verdict::PASS) return v;
   classify_text(text);
   return v;
